@@ -81,6 +81,12 @@ def run(chk, ctx):
            (T.show(env['type']), T.show(env['channel'])), site=site_m)
     okc, whyc = L.channel_acceptance(e['outs'])
     chk.ob('C02.H', 'marshal channels', okc, whyc, site=site_m)
+    caps = L.size_cap_refusals(e['outs'])
+    chk.ob('C02.H', 'marshal size', not caps,
+           'no refusal depends on the size of the encoded header (header '
+           'tables of arbitrary shape are sent)' if not caps else
+           'a header is refused for its encoded size: %s' % '; '.join(
+               caps[:2]), site=site_m)
     # fixed part
     basic_id = st_it.class_attr(prog.cls('commands.Basic'), 'frame_id')
     ff_ = L.fixed_fields(parts, [2, 2, 8])
